@@ -32,7 +32,7 @@ type Scenario struct {
 	Len          int
 	CAKind       string // p256 | rsa2048
 	Timestamping bool
-	Plans        []CertPlan // one per position; the root's entry only carries Shape.NoCRLSign
+	Plans        []CertPlan // one per position; the root's entry only carries Shape.NoCRLSign and pointers nobody serves
 	WithST       bool
 	Entry        string // validate | validate-deprecated | ocsp
 	CRLRoute     string // fetcher | http
@@ -112,6 +112,40 @@ func (sc *Scenario) Shapes() []Shape {
 func (sc *Scenario) Kit(pos int) *Kit {
 	sh := sc.Shapes()
 	return sc.Family().KitFor(pos, sh[pos], sh[pos+1])
+}
+
+// RootContacts counts the requests in a log that went to a location only the
+// chain's last certificate advertises.
+func (sc *Scenario) RootContacts(log []netsim.Event) int {
+	suffix := fmt.Sprintf(".c%d.%s.test", sc.Len-1, strings.ToLower(sc.Family().Tag))
+	n := 0
+	for _, e := range log {
+		if e.Kind == "request" && strings.Contains(e.URL, suffix) {
+			n++
+		}
+	}
+	return n
+}
+
+// Scribble overwrites everything a caller can reach through returned results,
+// the way a careless caller might; later reports must not change because of it.
+func Scribble(rs []*result.CertRevocationResult) {
+	for _, x := range rs {
+		if x == nil {
+			continue
+		}
+		x.Result = result.ResultRevoked
+		x.RevocationMethod = result.RevocationMethodCRL
+		for _, s := range x.ServerResults {
+			if s != nil {
+				s.Result = result.ResultRevoked
+				s.Server = "scribbled"
+				s.Error = fmt.Errorf("scribbled")
+				s.RevocationMethod = result.RevocationMethodCRL
+			}
+		}
+		x.ServerResults = append(x.ServerResults, &result.ServerResult{Result: result.ResultRevoked, Server: "scribbled"})
+	}
 }
 
 // IsHTTPKind reports whether a URL kind is served over the simulated network.
